@@ -132,7 +132,9 @@ def run(ctx: Ctx):
     res = pipe_common.explore(ctx, 16 if quick else 300, n_qry=12, salt=3,
                               kinds=["dropped", "indel", "stretched", "split", "noisy", "partial", "mirror", "tiny",
                                      "dropped", "indel", "exact", "chimeric"])
-    lines, out, r2 = pipe_common.validate_records(ctx, res, "C03")
+    from props import roundtrip
+    rt = roundtrip.explore(ctx, stride=5 if quick else 1)      # MC_Xmap's record space through the real writer
+    lines, out, r2 = pipe_common.validate_records(ctx, res + [{"lines": x["lines"]} for x in rt], "C03")
     ctx.notes["pipeline"] = {"inputs": len(res), "records": len(lines),
                              "records_with_gaps": sum(1 for ln in lines if any(c in (68, 73) for c in ln["rec"]["hit"])),
                              "one_pair_records": sum(1 for ln in lines if len(ln["rec"]["pairs"]) == 1)}
